@@ -539,4 +539,39 @@ theorem batch_step (S : SMemo) (hn : 1 ≤ S.bodies.length) (hu : utf8Valid S.bo
       intro i hi
       exact (hkeys i).mp ⟨e, hf, hall i hi⟩
 
+/-! ### from datagrams to accepted grams -/
+
+/-- the parsed grams of a queue of datagrams all of which `pick` accepts (each in the state the previous ones left); `none` if one is
+empty or rejected -/
+def picks (authic : Bool) (V : Bytes → Bytes → Bytes → Except Exn Unit) : List (Bytes × Nat) → List Entry → Option (List (PG × Nat))
+  | [], _ => some []
+  | (g, s) :: q, es =>
+    if g.isEmpty then none
+    else match pick authic (vidOfEntries es) V g with
+      | .ok p =>
+        match picks authic V q (store p s es) with
+        | some ps => some ((p, s) :: ps)
+        | none => none
+      | .error _ => none
+
+theorem recvLoop_picks (authic : Bool) (V : Bytes → Bytes → Bytes → Except Exn Unit) (q : List (Bytes × Nat)) (es : List Entry)
+    (pgs : List (PG × Nat)) (h : picks authic V q es = some pgs) : recvLoop authic V q es = .ok (storeAll pgs es, []) := by
+  induction q generalizing es pgs with
+  | nil => simp only [picks] at h; cases h; rfl
+  | cons gs q ih =>
+    obtain ⟨g, s⟩ := gs
+    simp only [picks] at h
+    split at h
+    · simp at h
+    · rename_i hg
+      split at h
+      · rename_i p hp
+        split at h
+        · rename_i ps hps
+          cases h
+          simp only [recvLoop, hg, Bool.false_eq_true, if_false, recvOne, hp, storeAll]
+          exact ih _ _ hps
+        · simp at h
+      · simp at h
+
 end Hio.Memo
